@@ -393,7 +393,9 @@ Proof.
   intros HI. unfold finish_obj. destruct (gw_objs s !! g) as [t|]; [|exact HI]. cbv zeta.
   assert (H : Inv (disarm_obj s g <| gw_objs := delete g (gw_objs (disarm_obj s g)) |>))
     by (apply Inv_delete, Inv_disarm_obj, HI).
-  destruct t; peel; exact H.
+  destruct t; [peel; exact H| | |];
+    (match goal with |- Inv (match ?x with _ => _ end) => destruct x as [g'|] end;
+     [destruct (g' =? g); [peel; exact H|exact H]|exact H]).
 Qed.
 
 Section InvPres.
@@ -684,7 +686,10 @@ End InvPres.
 
 Lemma finish_obj_st s g : gw_st (finish_obj s g) = gw_st s.
 Proof.
-  unfold finish_obj. destruct (gw_objs s !! g) as [t|]; [|reflexivity]. destruct t; reflexivity.
+  unfold finish_obj. destruct (gw_objs s !! g) as [t|]; [|reflexivity]. cbv zeta.
+  destruct t; try reflexivity;
+    (match goal with |- context [match ?x with Some _ => _ | None => _ end] => destruct x as [g'|] end;
+     [destruct (g' =? g)|]; reflexivity).
 Qed.
 
 Section TidFields.
